@@ -110,6 +110,17 @@ func handleLeafList(gnmiLl *gnmi.TypedValue_LeaflistVal, typeOpt0 uint8) (*confi
 		}
 	}
 
+	// The elements are stored as one typed list: elements of another type would be dropped
+	types := 0
+	for _, n := range []int{len(stringList), len(intList), len(uintList), len(boolList), len(bytesList), len(digitsList), len(floatList)} {
+		if n > 0 {
+			types++
+		}
+	}
+	if types > 1 {
+		return nil, fmt.Errorf("the elements of a leaf list must have one type: %v", gnmiLl.LeaflistVal)
+	}
+
 	var width = configapi.WidthThirtyTwo
 	if typeOpt0 > 0 {
 		width = configapi.Width(typeOpt0)
